@@ -288,3 +288,30 @@ M("c10-twin-ppi-guard-not", "C10", I, "        if n_full_chunks == 0:\n         
 M("c10-twin-ppi-empty-not", "C10", I, "        if len(interval_slices) == 0:\n            # nothing left", "        if not interval_slices:\n            # nothing left", expect="pass")
 M("c10-twin-ppi-empty-lt1", "C10", I, "        if len(interval_slices) == 0:\n            # nothing left", "        if len(interval_slices) < 1:\n            # nothing left", expect="pass")
 M("c10-twin-ppi-empty-lists", "C10", I, "            return interval_slices, interval_references, []\n", "            return [], [], []\n", expect="pass")
+
+# ------------------------------------------------------------------ a dict changed between lookup and forwarding (round-3 seed C11-r3b)
+_DS = "        return self.distribution.draw_sample(\n            n, **self._get_param_values(given), random_state=random_state\n        )"
+M("c08-twin-kw-store", ["C08", "C07", "C11"], D, _DS, "        kw = self._get_param_values(given)\n        kw[\"random_state\"] = random_state\n        return self.distribution.draw_sample(n, **kw)", expect="pass")
+M("c08-kw-loop-rewrite", ["C08", "C07", "C11"], D, _DS, "        kw = self._get_param_values(given)\n        for k_ in self.fixed_parameters:\n            kw[k_] = np.full_like(given, kw[k_])\n        return self.distribution.draw_sample(n, **kw, random_state=random_state)",
+  rules={"C08": ["C08.forward"], "C07": ["C07.conditional"], "C11": ["C11.evalflow"]}, what="fixed parameters recast to the dtype of given before forwarding")
+M("c08-kw-store-override", ["C08", "C07"], D, _DS, "        kw = self._get_param_values(given)\n        kw[self.param_names[0]] = 1.0\n        return self.distribution.draw_sample(n, **kw, random_state=random_state)",
+  rules={"C08": ["C08.forward"], "C07": ["C07.conditional"]}, what="a parameter overwritten before forwarding")
+
+# ------------------------------------------------------------------ C12.start (round-3 seed C12-r3a)
+_SD = '            if par_name == "loc":\n                setattr(self, par_name, 0)\n            else:\n                setattr(self, par_name, 1)\n'
+M("c12-start-substring", "C12", D, 'if par_name == "loc":', 'if par_name in ("loc"):', rules=["C12.start"], what="membership in a string is a substring test: shape c starts at 0")
+M("c12-start-scale0", "C12", D, 'if par_name == "loc":', 'if par_name in ("loc", "scale"):', rules=["C12.start"], what="scale starts at 0")
+M("c12-start-default-beta", "C12", D, "        self, alpha=1, beta=1, gamma=0, f_alpha=None, f_beta=None, f_gamma=None\n", "        self, alpha=1, beta=0, gamma=0, f_alpha=None, f_beta=None, f_gamma=None\n", rules=["C12.start"], what="Weibull shape starts at 0")
+M("c12-twin-start-ifexp", "C12", D, _SD, '            setattr(self, par_name, 0 if par_name == "loc" else 1)\n', expect="pass")
+M("c12-twin-start-tuple", "C12", D, 'if par_name == "loc":', 'if par_name in ("loc",):', expect="pass")
+M("c12-twin-start-neq", "C12", D, _SD, '            if par_name != "loc":\n                setattr(self, par_name, 1)\n            else:\n                setattr(self, par_name, 0)\n', expect="pass")
+
+# ------------------------------------------------------------------ C17.candidates (round-3 seed C17-r3a)
+M("c17-cand-strict", "C17", IX, "    C1 = np.less_equal(S1, S2)", "    C1 = np.less(S1, S2)", rules=["C17.candidates"], what="touching bounding boxes lost")
+M("c17-cand-drop-y", "C17", IX, "    ii, jj = np.nonzero(C1 & C2 & C3 & C4)", "    ii, jj = np.nonzero(C1 & C2 & C3)", rules=["C17.candidates"])
+M("c17-cand-minmax", "C17", IX, "    S1 = np.tile(X1.min(axis=1), (n2, 1)).T", "    S1 = np.tile(X1.max(axis=1), (n2, 1)).T", rules=["C17.candidates"])
+M("c17-cand-xy-mix", "C17", IX, "    S5, S6, S7, S8 = _rect_inter_inner(y1, y2)", "    S5, S6, S7, S8 = _rect_inter_inner(y1, x2)", rules=["C17.candidates"])
+M("c17-cand-early-exit", "C17", IX, "    ii, jj = np.nonzero(C1 & C2 & C3 & C4)\n    return ii, jj", "    ii, jj = np.nonzero(C1 & C2 & C3 & C4)\n    if not ii.any():\n        return ii[:0], jj[:0]\n    return ii, jj", rules=["C17.candidates"], what="index 0 read as 'no candidate'")
+M("c17-twin-cand-order", "C17", IX, "    ii, jj = np.nonzero(C1 & C2 & C3 & C4)", "    ii, jj = np.nonzero((C3 & C4) & (C1 & C2))", expect="pass")
+M("c17-twin-cand-logical", "C17", IX, "    ii, jj = np.nonzero(C1 & C2 & C3 & C4)", "    ii, jj = np.nonzero(np.logical_and(np.logical_and(C1, C2), np.logical_and(C3, C4)))", expect="pass")
+M("c17-twin-cand-ops", "C17", IX, "    C1 = np.less_equal(S1, S2)\n    C2 = np.greater_equal(S3, S4)", "    C1 = S1 <= S2\n    C2 = S4 <= S3", expect="pass")
